@@ -13,6 +13,7 @@ import (
 	"testing/synctest"
 
 	"github.com/jrhy/mast"
+	masts3 "github.com/jrhy/mast/persist/s3"
 	mastfile "github.com/jrhy/mast/persist/file"
 )
 
@@ -137,7 +138,15 @@ func NewWorld(t *testing.T, sc *Scenario) *World {
 		nd = 1
 	}
 	for i := 0; i < nd; i++ {
-		d := NewSimDisk(fmt.Sprintf("sim://d%d", i))
+		prefix := fmt.Sprintf("sim://d%d", i)
+		switch w.cfg.Prefixes {
+		case "port":
+			// what the S3 adapter calls two servers that differ in the port only
+			prefix = masts3.NewPersist(nil, fmt.Sprintf("http://127.0.0.1:%d", 9000+i), "bucket", "nodes/").NodeURLPrefix()
+		case "slash":
+			prefix = "sim://host/bucket/app" + strings.Repeat("/", i)
+		}
+		d := NewSimDisk(prefix)
 		w.disks = append(w.disks, d)
 		w.installStoreMonitor(d)
 		if w.cfg.Mirror == "file" {
@@ -1520,6 +1529,15 @@ func (w *World) opPersist(op *Op) {
 	if fr.cancelled {
 		w.st.Probes["flush-cancelled-midway-returned-root"]++
 	}
+	if fr.res.err != nil && w.cfg.OneSided != "" && fr.failed == 0 {
+		// only one of the two example types is configured: refusing to persist is fine (what must
+		// not happen is a root that does not read back)
+		w.st.Probes["persist-refused-one-sided-example-types"]++
+		if obs, r := w.observe(t.m); r.bad() || !sameStrs(obs, preObs) {
+			w.failFor("C01", "contents-mismatch/persist", "after MakeRoot refused a one-sided configuration the tree changed: %s %s", r, firstDiff(obs, preObs))
+		}
+		return
+	}
 	if fr.res.err != nil && w.cfg.Marshaler == "json" && w.hasUnmarshalable(t.model) {
 		// the tree holds a value the marshaler rejects: an error is the right answer
 		w.st.Probes["persist-rejected-unmarshalable-value"]++
@@ -1628,12 +1646,17 @@ func (w *World) opReload(op *Op) {
 			w.failFor("C05", "root-json-marshal", "%v", err)
 			return
 		}
-		var r2 mast.Root
-		if err := json.Unmarshal(b, &r2); err != nil {
+		// the record is read into a root obtained the usual way (a legacy record, which carries no
+		// format name, into a zero Root: the defaults of a new root are not those of an old record)
+		r2 := mast.NewRoot(nil)
+		if root.NodeFormat == "" {
+			r2 = &mast.Root{}
+		}
+		if err := json.Unmarshal(b, r2); err != nil {
 			w.failFor("C05", "root-json-unmarshal", "%v", err)
 			return
 		}
-		root = &r2
+		root = r2
 		w.st.Probes["reload-via-json"]++
 	}
 	d := v.disk
